@@ -713,6 +713,7 @@ pub fn run(tier_name: &str, seed: u64) -> i32 {
                     signature: f.signature.clone(),
                     detail,
                     case: json!({"check": "C10", "case": min}),
+                    origin: Some((shard, run)),
                 });
             }
         }
@@ -746,7 +747,7 @@ pub fn run(tier_name: &str, seed: u64) -> i32 {
         }),
         exhaustive: false,
     };
-    report::finish(meta, tally, wall, &|v| replay_value(v))
+    report::finish(meta, tally, wall, &|v| replay_value(v), &|shard, run| case_json(tier_name, seed, shard, run))
 }
 
 pub fn replay_value(v: &Value) -> Vec<(String, String)> {
@@ -768,4 +769,11 @@ pub fn digest(seed: u64, i: u64) -> Vec<String> {
             format!("C10 {i} {j} {} {:016x} {}", out.log.hex(), simctx::name_hash(&format!("{:?}", out.result)), out.schedule.len())
         })
         .collect()
+}
+
+/// The explicit case of scenario `run` of shard `shard` (history replay).
+pub fn case_json(tier_name: &str, seed: u64, shard: usize, run: usize) -> Option<Value> {
+    let t = tier(tier_name);
+    let (case, _) = gen_case(seed, shard as u64, run as u64, &t);
+    Some(json!({"check": "C10", "case": case}))
 }
